@@ -5,7 +5,7 @@
 //@ assume MatchType::find_nth carries the contract PROVED in unit C02_find (restated: a Some result is never before `index`)
 //@ assume checked_add carries the contract PROVED complete by Kani C04_subst::length_arith (Some(base + changes) when that is a usize, None otherwise)
 //@ assume apply_subst carries the contract read off its body (src/gsub.rs:729): Ok(Some(c)) - the run's length changed by exactly c (0 for single / alternate / reverse chaining, count - 1 for multiple, -removed for ligature, the nested change for contextual lookups, which is this unit's own postcondition); Ok(None) - length unchanged. Nothing is assumed about whether c stays within the span of the context's input sequence: a nested ligature works on the whole run
-//@ assume a Vec<RawGlyph> holds at most isize::MAX elements (Rust allocation limit for a non-zero-sized element type): precondition here, postcondition of the apply_subst stub
+//@ assume a Vec<RawGlyph> holds at most usize::MAX / 2 (= isize::MAX) elements (Rust allocation limit for a non-zero-sized element type): precondition here, postcondition of the apply_subst stub
 //@ assume SubstContext / MatchContext / GlyphTable / LookupList / LayoutCache are opaque placeholder types; GlyphTable::len is an uninterpreted usize
 //@ unverified apply_subst itself (Rc<LookupCacheItem>, seven lookup types); contextsubst_would_apply (closures)
 // Verification unit C02_ctx (properties C02, C04): nested lookups of a contextual substitution (GSUB types 5 and 6).
@@ -84,17 +84,20 @@ pub fn apply_subst<T: GlyphData>(
     ensures
         r is Ok && r->Ok_0 is Some ==> final(glyphs)@.len() == old(glyphs)@.len() + r->Ok_0->Some_0,
         r is Ok && r->Ok_0 is None ==> final(glyphs)@.len() == old(glyphs)@.len(),
-        final(glyphs)@.len() <= isize::MAX,
+        final(glyphs)@.len() <= usize::MAX / 2,
 { unimplemented!() }
 
 //@ fn src/gsub.rs | apply_subst_context
 //@ ret r
 //@ attr #[verifier::loop_isolation(false)]
 //@ loop 1
-        invariant glyphs@.len() == old(glyphs)@.len() + changes, glyphs@.len() <= isize::MAX,
+        invariant glyphs@.len() == old(glyphs)@.len() + changes, glyphs@.len() <= usize::MAX / 2,
 //@ spec
-    requires old(glyphs)@.len() <= isize::MAX
+    requires old(glyphs)@.len() <= usize::MAX / 2, i < old(glyphs)@.len()
     ensures
+        final(glyphs)@.len() <= usize::MAX / 2,
+        // what the caller's cursor arithmetic relies on (unit C02_lookup): the match ends inside the new run and spans at least one glyph
+        r is Ok && r->Ok_0 is Some ==> i + r->Ok_0->Some_0.0 <= final(glyphs)@.len() && r->Ok_0->Some_0.0 - r->Ok_0->Some_0.1 >= 1,
         r is Ok && r->Ok_0 is Some ==> final(glyphs)@.len() == old(glyphs)@.len() + r->Ok_0->Some_0.1,
         r is Ok && r->Ok_0 is None ==> final(glyphs)@.len() == old(glyphs)@.len(),
         // the reported length of the match is the span of the input sequence (first to last matched glyph) plus the change
